@@ -219,7 +219,8 @@ def check(tr):
                 out.append(V("C06", "R1.outside_restrict", tr, "trial %s gets a configuration outside restrict_configurations" % tid, seq))
                 break
         size = len(inside | {tuple(repr(c_.get(n)) for n in hp_names) for _, c_, _ in news[:npte]})
-    if kind in NOREPEAT_KINDS and not allow_dup:
+    # (DEHB, too, promises not to give a configuration to two new trials; its first-bracket promotions are resumes here)
+    if kind in NOREPEAT_KINDS | {"dehb"} and not allow_dup:
         seenhp = {}
         for seq, cfg, tid in news:
             hp = tuple(repr(cfg.get(n)) for n in hp_names)
